@@ -5,7 +5,8 @@
    (Annex-B or AVC mode, whatever its fragment buffer held) yields exactly the units the hold-back
    rule [deliver] delivers - AUD and filler dropped, SPS and PPS held until the next other unit and
    then sent first (as one STAP-A when it fits the MTU, otherwise each on its own) - each behind
-   the receiver's prefix, and leaves the payloader in the state [deliver] says. *)
+   the receiver's prefix, and leaves the payloader in the state [deliver] says.
+   C10_nothing_lost: that rule loses and reorders nothing, whatever the sequence of units. *)
 From Coq Require Import ZArith List.
 From RTP Require Import Base.Res Base.ListX Base.Own Model.AnnexB Model.H264 Proofs.AnnexBSplit Proofs.C10_H264 Proofs.C10_Lossless.
 Import ListNotations.
@@ -84,6 +85,26 @@ Theorem C10_access_unit : forall mtu avc b n t st, 3 <= mtu <= 65535 ->
       = Ok (mkH264Pkt avc stale', concat (map (prefixed avc) (snd (deliver_all st (n :: map snd t))))).
 Proof. exact access_unit_lossless. Qed.
 Print Assumptions C10_access_unit.
+
+(* ... and the hold-back rule [deliver_all] loses and reorders nothing, for EVERY sequence of units
+   (several PPS behind one SPS, an SPS or PPS on its own, PPS before SPS, repeated SPS included): what
+   has been delivered, followed by what is still held back for the next call, is what was held before
+   followed by the units given, AUD and filler dropped - in that order.  (Until repair D25 a second
+   PPS replaced the first, and a parameter set without its counterpart was overtaken by the next
+   slice.)  [hold_ok] holds of a fresh payloader and is preserved. *)
+Theorem C10_nothing_lost : forall ns st, hold_ok st ->
+  snd (deliver_all st ns) ++ held (fst (deliver_all st ns)) = held st ++ filter kept ns.
+Proof. exact deliver_all_complete. Qed.
+Print Assumptions C10_nothing_lost.
+
+Example C10_multiple_pps :
+  h264_payload (mkH264Pay false None None) 1200
+    (Some [0; 0; 0; 1; 103; 1; 0; 0; 0; 1; 104; 160; 0; 0; 0; 1; 104; 177; 0; 0; 0; 1; 101; 9; 9])
+  = Ok (mkH264Pay false None None, [Own [120; 0; 2; 103; 1; 0; 2; 104; 160]; Own [104; 177]; Own [101; 9; 9]]) /\
+  h264_payload (mkH264Pay false None None) 1200 (Some [0; 0; 0; 1; 103; 1; 0; 0; 0; 1; 101; 9; 9])
+  = Ok (mkH264Pay false None None, [Own [103; 1]; Own [101; 9; 9]]) /\
+  hold_ok (mkH264Pay false None None).
+Proof. split; [vm_compute; reflexivity|split; [vm_compute; reflexivity|apply hold_ok_fresh]]. Qed.
 
 (* the hold-back rule delivers SPS and PPS in front of the next slice *)
 Example C10_deliver_example :
